@@ -277,6 +277,122 @@ def run_http(case):
     return res
 
 
+# --------------------------------------------------------------------------- several operations in flight on one client
+async def _one_of_many(backend, method, name, data, chunk):
+    """One of the concurrent operations; returns None if it delivered exactly the intended bytes, else what went wrong."""
+    try:
+        if method == 'upload':
+            await backend.upload(name, data)
+        elif method == 'upload_stream':
+            inner = io.BytesIO(data)
+            w, _ = wrap_reader(inner, len(data))
+            with w:
+                await backend.upload_stream(name, w, len(data), chunk)
+            if inner.tell() != len(data):
+                return f'{method}({name}): stream left at {inner.tell()} of {len(data)}'
+        elif method == 'download':
+            got = bytes(await backend.download(name))
+            if got != data:
+                return f'{method}({name}): returned {got!r} instead of {data!r}'
+        elif method == 'download_stream':
+            inner = io.BytesIO()
+            w, _ = wrap_writer(inner)
+            with w:
+                await backend.download_stream(name, w, chunk)
+            if inner.getvalue() != data or inner.tell() != len(data):
+                return f'{method}({name}): stream holds {inner.getvalue()!r} at {inner.tell()}, object is {data!r}'
+        elif method == 'exists':
+            if await backend.exists(name) is not True:
+                return f'{method}({name}): False for an existing object'
+        elif method == 'delete':
+            await backend.delete(name)
+        elif method == 'list':
+            got = [x async for x in backend.list_files(name)]
+            if got != [name]:
+                return f'{method}({name}): {got}'
+    except Exception as e:      # noqa
+        return f'{method}({name}): {exc_class(e)}'
+    return None
+
+
+def run_concurrent(case):
+    """The operations of case['concurrent'] are started together on ONE client (asyncio.gather) while the fault plan
+    applies to whichever request comes first ('*'); the account authorisation may be slow (authorize_delay turns)."""
+    backend_kind = case['backend']
+    c = case['chunk']
+    if backend_kind == 's3c':
+        from replicat.backends import s3c
+        svc = fk.FakeS3('bkt', page_size=1000, piece=c, max_requests=HARD_CAP * 4)
+        with fk.patched_async_client(svc.handler):
+            b = s3c.S3Compatible('bkt', key_id='AKIDEXAMPLE', access_key='secret', region='us-east-1', host='s3.fake.test')
+    else:
+        from replicat.backends import b2
+        svc = fk.FakeB2('bkt', page_size=1000, piece=c, max_requests=HARD_CAP * 4)
+        with fk.patched_async_client(svc.handler):
+            b = b2.B2('bkt', key_id='kid', application_key='appkey')
+        sync(b.exists('warm-up'))
+        svc.authorize_delay = case.get('authorize_delay', 0)
+    jobs = []
+    for i, m in enumerate(case['concurrent']):
+        name, data = f'data/cc/o{i}', payload(case['size'] + i, 20 + i)
+        if m in ('download', 'download_stream', 'exists', 'delete', 'list'):
+            if backend_kind == 's3c':
+                svc.objects[name] = data
+            else:
+                svc.versions[name] = [('upload', data)]
+        jobs.append((m, name, data))
+    rules = []
+    for f in case['faults']:
+        r = {'op': f.get('target', '*'), 'kind': f['kind'], 'count': 1}
+        r.update({k: f[k] for k in ('after', 'skip') if k in f})
+        rules.append(r)
+    svc.plan = fk.FaultPlan(rules)
+    svc.log, svc.nrequests = [], 0
+
+    async def all_of_them():
+        return await asyncio.gather(*[_one_of_many(b, m, name, data, c) for m, name, data in jobs])
+    try:
+        problems = [p for p in sync(all_of_them()) if p]
+    except BaseException as e:      # noqa: cap exceeded / recursion
+        problems = [f'aborted: {exc_class(e)}']
+    sync(b.close())
+    for m, name, data in jobs:
+        obj = svc.objects.get(name)
+        if m in ('upload', 'upload_stream') and obj != data and not problems:
+            problems.append(f'{m}({name}): stored object is {obj!r}, payload {data!r}')
+        if m == 'delete' and obj is not None and not problems:
+            problems.append(f'delete({name}): the object is still there')
+    return {'outcome': 'ok' if not problems else 'error:' + problems[0].split(': ', 1)[1].split(' ')[0], 'problems': problems,
+            'pos': None, 'content': None, 'value': None, 'obj': None, 'tries': svc.nrequests, 'requests': svc.nrequests,
+            'auths': svc.count('authorize'), 'temps': 0, 'fired': len(svc.plan.fired)}
+
+
+CONC_METHODS = ('upload_stream', 'download_stream', 'upload', 'download', 'delete', 'exists', 'list')
+
+
+def concurrent_cases(f, rng, extra=0):
+    """Several transfers share one client when the authorisation expires / a request fails: one expired token (or up to
+    max_reauth stray faults) is a transient fault for every operation in flight, however slow the re-authorisation is."""
+    cases = []
+
+    def mk(backend, n, variant, faults, delay=0):
+        methods = [CONC_METHODS[(i * 3 + variant + n) % len(CONC_METHODS)] for i in range(n)]
+        return {'backend': backend, 'method': 'concurrent', 'concurrent': methods, 'size': 5, 'chunk': 4, 'authorize_delay': delay,
+                'nested': True, 'faults': faults}
+    for n in (2, 3, 6):
+        for delay in (0, 2, 40):
+            for skip in sorted({0, 1, n - 1, 2 * n}):
+                cases.append(mk('b2', n, skip + delay, [{'kind': 'expire', 'target': '*', 'skip': skip}], delay))
+        for kind in ('401', '500', '429', 'drop'):
+            for count in (1, min(3, f['max_reauth'])):
+                cases.append(mk('b2', n, count, [{'kind': kind, 'target': '*'} for _ in range(count)], 5))
+                cases.append(mk('s3c', n, count, [{'kind': kind, 'target': '*'} for _ in range(min(count, f['s3_max_tries'] - 1))]))
+    for _ in range(extra):
+        n = rng.randint(2, 8)
+        cases.append(mk('b2', n, rng.randrange(7), [{'kind': 'expire', 'target': '*', 'skip': rng.randint(0, 3 * n)}], rng.choice([0, 1, 3, 10, 40, 200])))
+    return cases
+
+
 # --------------------------------------------------------------------------- local execution with injected OSErrors
 class LocalInjector:
     """Raises OSError(EIO) from the entry points the Local adapter uses, one planned fault per attempt of the method.
@@ -639,6 +755,11 @@ def oracle(case, res, f):
     if o in ('error:RecursionError', 'error:RequestCapExceeded') or res['requests'] > HARD_CAP:
         bad.append((f'retried without bound: {res["requests"]} requests, ended with {o}', 'unbounded'))
         return bad
+    if case.get('concurrent'):
+        if res['problems'] and L < budget(case, f) and not has403:
+            bad.append((f'{len(case["concurrent"])} operations in flight on one client ({", ".join(case["concurrent"])}), {L} fault(s) {case["faults"][0]}, '
+                        f'authorisation answering after {case.get("authorize_delay", 0)} turns: not masked: ' + '; '.join(res['problems'][:4]), 'not_masked'))
+        return bad
     transient = (L < budget(case, f)) and not has403
     if case.get('persistent'):
         transient = False
@@ -705,6 +826,8 @@ def signature(case, kind):
 
 
 def execute(case, scratch: Path):
+    if case.get('concurrent'):
+        return run_concurrent(case)
     if case['backend'] == 'local':
         return run_local(case, scratch / 'local_repo')
     return run_http(case)
@@ -717,7 +840,7 @@ def check_cases(cases, rep: Report, scratch: Path, f, with_model=True):
             res = execute(case, scratch)
             results.append(res)
             L = len(case['faults'])
-            rep.case((case['backend'], case['method'], case['size'], case['chunk'], case.get('old'), case.get('init'), case.get('piece'), case.get('prelude'),
+            rep.case((case['backend'], case['method'], case.get('concurrent'), case.get('authorize_delay'), case['size'], case['chunk'], case.get('old'), case.get('init'), case.get('piece'), case.get('prelude'),
                       [sorted(x.items()) for x in case['faults']]), nontrivial=res['fired'] >= 1)
             rep.count(f'{case["backend"]}:{case["method"]}')
             rep.count('run_length=' + (str(L) if L <= 6 else '>6'))
@@ -771,7 +894,7 @@ def list_fault_probe(rep: Report, scratch: Path, f):
 RULE = ('case = (backend, method, payload size, chunk size, fault sequence): every fault position (before the first byte, after k '
         'stream chunks for every k, after the last) x kind (OSError per entry point; connection refused / dropped in mid-transfer, '
         '500, 503, 429+retry-after, 401, 403, 500 after the effect) x run length 1..max_tries+1, payloads 0, 1, chunk-1, chunk, '
-        'chunk+1, 3*chunk, plus random mixed sequences, multi-operation scenarios (fault-free prelude of the same client, then the faulted operation; B2 upload URL / token pairs expiring or their pod getting sick) and B2 nested-endpoint / expired-token cases; non-trivial = at least one fault fired; '
+        'chunk+1, 3*chunk, plus random mixed sequences, multi-operation scenarios (fault-free prelude of the same client, then the faulted operation; B2 upload URL / token pairs expiring or their pod getting sick) B2 nested-endpoint / expired-token cases, and 2-8 operations in flight on one client while the token expires (slow re-authorisation) or stray faults occur; non-trivial = at least one fault fired; '
         'distinct = distinct case tuples')
 
 
@@ -786,7 +909,7 @@ def run(ctx) -> Report:
     chunks = [4, 2] if ctx.tier == 'quick' else [4, 1, 2, 7]
     cases = corpus() + sequence_cases(f) + enumerate_cases(f, chunks, ctx.tier != 'quick')
     cases += random_cases(ctx.rng, f, ctx.scale(600, 8000), [1, 2, 3, 4, 7] if ctx.tier != 'quick' else [2, 4, 5])
-    cases += nested_cases(f) + persistent_cases(f)
+    cases += nested_cases(f) + persistent_cases(f) + concurrent_cases(f, ctx.rng, ctx.scale(40, 600))
     check_cases(cases, rep, ctx.scratch, f)
     list_fault_probe(rep, ctx.scratch, f)
     rep.notes.append(f'budgets read from the source: local max_tries={f["local_max_tries"]}, s3 max_tries={f["s3_max_tries"]}, '
@@ -800,7 +923,7 @@ def search(ctx, broken) -> Report:
     rep = Report(rule=RULE)
     f = facts()
     seeds = [b['case']['case'] for b in broken if isinstance(b.get('case'), dict) and isinstance(b['case'].get('case'), dict)]
-    cases = seeds + enumerate_cases(f, [4, 1, 3], True) + random_cases(ctx.rng, f, 3000, [1, 2, 3, 4, 7]) + nested_cases(f) + persistent_cases(f) + sequence_cases(f)
+    cases = seeds + enumerate_cases(f, [4, 1, 3], True) + random_cases(ctx.rng, f, 3000, [1, 2, 3, 4, 7]) + nested_cases(f) + persistent_cases(f) + sequence_cases(f) + concurrent_cases(f, ctx.rng, 400)
     check_cases(cases, rep, ctx.scratch, f, with_model=False)
     list_fault_probe(rep, ctx.scratch, f)
     return rep
